@@ -21,6 +21,7 @@ var c19Tokens = []string{
 	"(", ")", `\(`, `\)`, "?i:", "?-s:", "(?i)", "[", "]", "{", "}", "{{", "}}",
 	"|", `\`, `"`, "*", "\x01", "é", "\xff",
 	`\(?i:`, `\(?s:`, "(?i:x)", "(?s:.)", ".",
+	"##!> define x ", "{{x}}",
 }
 
 // line-level alphabet: whole lines, well-formed and malformed directives
@@ -29,7 +30,7 @@ var c19Lines = []string{
 	"##!> assemble", "##!> cmdline unix", "##!> cmdline windows", "##!> cmdline", "##!> cmdline foo", "##!> foo", "##!>", "##!<", "  ##!<",
 	"##!=>", "##!=> x", "##!=< x", "##!=<", "##!=> nope",
 	"##!+ i", "##!+ s", "##!^ p(", "##!$ )s", "##!^ x", "##!$ y",
-	"##!> define x (", "##!> define y {{x}}", "##!> include x", "##!> include-except x x", "##!> include x -- x y", "##!> include x -- a", "##! c", "",
+	"##!> define x (", "##!> define y {{x}}", "##!> define x a{{x}}", "##!> define x {{y}}b", "##!> include x", "##!> include-except x x", "##!> include x -- x y", "##!> include x -- a", "##! c", "",
 	"'a", "a@", "a~", `a\@`, "@", "\t", "##!> include inc",
 }
 
